@@ -13,7 +13,7 @@ Ev == TraceLog[l]
 A(k) == Ev.args[k]
 
 FromLog(sts) == [c \in C |-> IF sts[c].st = "absent" THEN Absent
-                             ELSE IF sts[c].st = "dirty" THEN [st |-> "dirty", cap |-> sts[c].cap, size |-> 0, slots |-> [k \in 1..sts[c].cap |-> J]]
+                             ELSE IF sts[c].st = "dirty" THEN [st |-> "dirty", cap |-> sts[c].cap, size |-> 0, slots |-> [k \in 1..sts[c].cap |-> J], mf |-> FALSE]
                              ELSE Mk(sts[c].cap, sts[c].seq)]
 
 Dispatch ==
